@@ -13,9 +13,7 @@ ROOT="$(cd "$(dirname "$0")" && pwd)"
 cd "$ROOT"
 mode="${1:-}"; shift
 bin_for() { case "$1" in C20|C21) echo "$ROOT/target/osim/release/osim";; C18|C22|C23|C24) echo "$ROOT/target/dsim/release/dsim";; *) echo "$ROOT/target/small/release/wsim";; esac; }
-quick_runs() { VERIF_MAX_RUNS=0 true; case "$1" in
-  C01) echo 1600;; C02) echo 900;; C03) echo 1700;; C04) echo 500;; C05) echo 1500;; C06) echo 700;; C07) echo 36;; C08) echo 48;; C09) echo 42;; C10) echo 160;;
-  C11) echo 1150;; C12) echo 230;; C13) echo 110;; C15) echo 1250;; C16) echo 560;; C17) echo 2500;; C18) echo 3000;; C20) echo 8000;; C21) echo 2000;; C22) echo 3500;; C23) echo 3500;; C24) echo 3300;; esac; }
+. "$ROOT/runs_table.sh"
 case "$mode" in
 determinism)
   scale="${1:-25}"; [ $# -gt 0 ] && shift
